@@ -19,9 +19,11 @@
                             DataFrame.column_names cache (frame object, names it saw); operations describe
                             through frame f / re-declare a column in place / append / pop / assign a column's
                             attributes in place; [current_view st] = the schema as it is now, rendered;
-                            [not_cached f st] / [cached_current f st] / [in_place o st] as defined in the model. *)
+                            [not_cached f st] / [cached_current f st] / [in_place o st] as defined in the model;
+     kwargs / column_kw / decl_model   FlatColumn(type=s, length=?, precision=?, scale=?, element_type=?): each
+                            keyword omitted, None, or a value; [unspecified kw] = none carries a value. *)
 From Coq Require Import List NArith ZArith Bool String.
-From Orso Require Import Base.C06_Defs Gen.C06_Types Gen.C06_Names Gen.C06_Env Gen.C06_Regex Model.C06 Proofs.C06 Proofs.C06_Frame Proofs.C06_Session.
+From Orso Require Import Base.C06_Defs Gen.C06_Types Gen.C06_Names Gen.C06_Env Gen.C06_Regex Model.C06 Proofs.C06 Proofs.C06_Frame Proofs.C06_Session Proofs.C06_Kw.
 Import ListNotations.
 Open Scope N_scope.
 
@@ -260,6 +262,47 @@ Theorem C06_session_type_code_current :
 Proof. exact session_type_code_current. Qed.
 Print Assumptions C06_session_type_code_current.
 
+(* ---------------- the constructor's own keyword arguments (round 4) ---------------- *)
+
+(* Passing None for length / precision / scale / element_type means the same as omitting the
+   keyword, in any mixture: the declaration behaves exactly as the type name alone (the
+   [column_model] of rounds 1-3), for every string. *)
+Theorem C06_explicit_none_is_unspecified :
+  forall (ci : col_in) (kw : kwargs),
+  unspecified kw = true ->
+  decl_model ci kw = column_model (ci_X ci) (fun _ => ci_upper ci) (ci_text ci).
+Proof. exact decl_model_unspecified. Qed.
+Print Assumptions C06_explicit_none_is_unspecified.
+
+(* Hence the end-to-end statement for such a declaration: a well-formed name in any letter case,
+   keywords omitted or None -> the column carries what the name denotes and its reported type
+   code resolves back. *)
+Theorem C06_declared_column_kw :
+  forall (ci : col_in) (kw : kwargs) (t : tname),
+  unspecified kw = true ->
+  wf_name t = true -> ci_upper ci = render t -> proper (denote t) = true ->
+  exists c d',
+    decl_model ci kw = ColOk c (type_code c) (desc_prec c) (desc_scale c) (Ok d') /\
+    d_ty c = d_ty (denote t) /\ d_len c = d_len (denote t) /\ d_elt c = d_elt (denote t) /\
+    (forall p, d_prec (denote t) = Some p -> d_prec c = Some p) /\
+    (forall sc, d_scale (denote t) = Some sc -> d_scale c = Some sc) /\
+    d_ty d' = d_ty c /\ d_prec d' = desc_prec c /\ d_scale d' = desc_scale c /\
+    (forall e, d_elt c = Some e -> d_elt d' = Some e).
+Proof. exact declared_column_kw. Qed.
+Print Assumptions C06_declared_column_kw.
+
+(* A keyword passed WITH a value is what the column carries, whatever the name says; the type is
+   always the name's. *)
+Theorem C06_explicit_values_kept :
+  forall (kw : kwargs) (e0 : option str) (d : descr),
+  d_ty (column_kw kw e0 d) = d_ty d /\
+  (forall n, k_len kw = KVal n -> d_len (column_kw kw e0 d) = Some n) /\
+  (forall n, k_prec kw = KVal n -> d_prec (column_kw kw e0 d) = Some n) /\
+  (forall n, k_scale kw = KVal n -> d_scale (column_kw kw e0 d) = Some n) /\
+  (forall m, e0 = Some m -> d_elt (column_kw kw e0 d) = Some m).
+Proof. exact explicit_values_kept. Qed.
+Print Assumptions C06_explicit_values_kept.
+
 (* ---------------- non-vacuity and worked instances ---------------- *)
 
 (* the hypotheses are satisfiable by non-trivial values, and letter-case variants exist *)
@@ -369,3 +412,24 @@ Proof.
   { intros nc H. vm_compute in H. injection H as H. subst nc. vm_compute. reflexivity. }
   repeat split; vm_compute; reflexivity.
 Qed.
+
+(* keywords: DECIMAL(10,2) with precision=None, scale=None is DECIMAL(10,2) (not the defaults
+   28,21); ARRAY<INTEGER> with element_type=None keeps INTEGER; an explicit value wins; a
+   rejected element type name rejects the column *)
+Example C06_nonvacuous_keywords :
+  let col s := ((txt "c", txt s, [], []) : col_in) in
+  unspecified (mkKw KNone KOmit KNone ENone) = true /\
+  decl_model (col "DECIMAL(10,2)") (mkKw KNone KNone KNone ENone) =
+    ColOk (mkD (TMember (txt "DECIMAL")) None (Some 10) (Some 2) None) (txt "DECIMAL(10,2)") (Some 10) (Some 2)
+          (Ok (mkD (TMember (txt "DECIMAL")) None (Some 10) (Some 2) None)) /\
+  decl_model (col "array<integer>") (mkKw KOmit KOmit KOmit ENone) =
+    ColOk (mkD (TMember (txt "ARRAY")) None None None (Some (txt "INTEGER"))) (txt "ARRAY<INTEGER>") None None
+          (Ok (mkD (TMember (txt "ARRAY")) None None None (Some (txt "INTEGER")))) /\
+  decl_model (col "DECIMAL") (mkKw KOmit (KVal 10) KNone EOmit) =
+    ColOk (mkD (TMember (txt "DECIMAL")) None (Some 10) (Some 7) None) (txt "DECIMAL(10,7)") (Some 10) (Some 7)
+          (Ok (mkD (TMember (txt "DECIMAL")) None (Some 10) (Some 7) None)) /\
+  decl_model (col "ARRAY") (mkKw KOmit KOmit KOmit (EName (col "date"))) =
+    ColOk (mkD (TMember (txt "ARRAY")) None None None (Some (txt "DATE"))) (txt "ARRAY<DATE>") None None
+          (Ok (mkD (TMember (txt "ARRAY")) None None None (Some (txt "DATE")))) /\
+  decl_model (col "ARRAY") (mkKw KOmit KOmit KOmit (EName (col "STRUCT{a:INTEGER}"))) = ColRaise ValueError.
+Proof. cbv zeta. repeat split; vm_compute; reflexivity. Qed.
